@@ -98,6 +98,11 @@ PROPS["C12"] = {
     "drives": [
         {"name": "replica-c12", "cmd": "replica", "args": {"profile": "all", "n": {"quick": 250, "thorough": 5000}},
          "trace_module": "ReplicaTrace", "trace_consts": dict(RANGER, Prop='"C12"')},
+        # subscriptions made, dropped and used through the real store actor (open-with-subscribe, subscribe, unsubscribe)
+        {"name": "actor-events", "cmd": "actor", "args": {"n": {"quick": 120, "thorough": 3000}},
+         "trace_module": "ActorTrace",
+         "trace_consts": dict(ENTRY, OpenCounts="TRUE", SyncSticky="TRUE", GateSync="TRUE", GateOpen="TRUE", Prop='"C12"'),
+         "tv_timeout": 3000},
     ],
 }
 
